@@ -196,6 +196,60 @@ def handler : Handler := fun op j =>
         ("eval", jArr evs), ("adj", jArr ads),
         ("eval_dt", jDtRes (o.evalDt md.inDt)),
         ("adj_dt", if lin then jDtRes (o.adjCallDt md.outDt) else Json.null)]))
+  | "freeze" => do
+    let e ← getExpr? (← field? j "e")
+    let k ← fInt? j "k"
+    let vsh ← fShape? j "vsh"
+    let vdt ← fDT? j "vdt"
+    let val ← (field? j "val").bind getCxs?
+    let xs ← (optField? j "xs" (getListOf? getCxs?))
+    match build e with
+    | .error kd => some (err kd.name)
+    | .ok o =>
+      match freeze o k vsh vdt (vcOf val) with
+      | .error kd => some (err kd.name)
+      | .ok r =>
+        let md := r.md
+        let m := md.outShape.size
+        some (ok (jObj [
+          ("cls", jS md.cls.name), ("in_shape", jShape md.inShape), ("out_shape", jShape md.outShape),
+          ("in_dtype", jS md.inDt.name), ("out_dtype", jS md.outDt.name),
+          ("matrix_shape", jNs [md.matrixShape.1, md.matrixShape.2]),
+          ("eval", jArr ((xs.getD []).map (fun x => vecOut m (r.eval (vcOf x)).get))),
+          ("eval_dt", jDtRes (r.evalDt md.inDt))]))
+  | "fn" => do
+    -- Function((S_1..S_N), output (m,), eval = Σ_p G_p · a_p) : slice / join
+    let shapes ← (field? j "shapes").bind (getListOf? getShape?)
+    let dts ← (field? j "dts").bind (getListOf? getDT?)
+    let gdt ← fDT? j "gdt"
+    let m ← fNat? j "m"
+    let gs ← (field? j "Gs").bind (getListOf? getCxs?)
+    let mode ← fStr? j "mode"
+    let xs ← (optField? j "xs" (getListOf? getCxs?))
+    let sizes := shapes.map Shape.size
+    let evalF : List (Vc C) → Vc C := fun args =>
+      trunc m (fun i =>
+        ((gs.zip (sizes.zip args)).map (fun (g, (n, a)) =>
+          sumTo n (fun q => (matOf n g) i q * a.get q))).foldl (· + ·) 0)
+    let outDt := dts.foldl resultType gdt
+    let f : Fn C := { inShapes := shapes, inDts := dts, outShape := .plain [m], outDt := outDt,
+                      eval := evalF, evalDt := fun ds => .ok (ds.foldl resultType gdt) }
+    let r := if mode == "slice" then do
+        let k ← fInt? j "k"
+        let fix ← (field? j "fix").bind (getListOf? getCxs?)
+        let fixdts ← (field? j "fixdts").bind (getListOf? getDT?)
+        some (f.slice k (fix.map vcOf) fixdts)
+      else some f.join
+    match ← r with
+    | .error kd => some (err kd.name)
+    | .ok o =>
+      let md := o.md
+      some (ok (jObj [
+        ("cls", jS md.cls.name), ("in_shape", jShape md.inShape), ("out_shape", jShape md.outShape),
+        ("in_dtype", jS md.inDt.name), ("out_dtype", jS md.outDt.name),
+        ("matrix_shape", jNs [md.matrixShape.1, md.matrixShape.2]),
+        ("eval", jArr ((xs.getD []).map (fun x => vecOut m (o.eval (vcOf x)).get))),
+        ("eval_dt", jDtRes (o.evalDt md.inDt))]))
   | "result_type" => do
     let a ← fDT? j "a"
     let k ← getKind? j
